@@ -77,6 +77,19 @@ type AccountingCheckpoint struct {
 // to opdb. Called after each successful Accounting-Response (LastReported
 // advance) and after each VPP-restart rebaseline. Idempotent.
 func (c *Component) checkpointAcctSession(s *AccountingSession) {
+	c.writeAcctCheckpoint(s, false)
+}
+
+// checkpointAcctSessionNow is checkpointAcctSession with the opdb write
+// done before it returns. sendAccountingUpdate uses it to persist LastSent
+// before the request leaves: the write is then ordered before the
+// asynchronous checkpoint that follows the response, and a process restart
+// while the request is outstanding cannot forget the value just sent.
+func (c *Component) checkpointAcctSessionNow(s *AccountingSession) {
+	c.writeAcctCheckpoint(s, true)
+}
+
+func (c *Component) writeAcctCheckpoint(s *AccountingSession, wait bool) {
 	if c.opdb == nil || s == nil {
 		return
 	}
@@ -128,7 +141,7 @@ func (c *Component) checkpointAcctSession(s *AccountingSession) {
 			"session_id", s.sessionID, "error", err)
 		return
 	}
-	go func() {
+	write := func() {
 		if err := c.opdb.Put(c.Ctx, opdb.NamespaceAcctSessions, s.sessionID, data); err != nil {
 			c.logger.Warn("Failed to checkpoint acct session",
 				"session_id", s.sessionID, "error", err)
@@ -143,7 +156,12 @@ func (c *Component) checkpointAcctSession(s *AccountingSession) {
 					"session_id", s.sessionID, "error", err)
 			}
 		}
-	}()
+	}
+	if wait {
+		write()
+	} else {
+		go write()
+	}
 }
 
 // deleteAcctCheckpoint removes the persisted accounting state for
